@@ -162,7 +162,7 @@ Definition UniqueIds (p : pool) : Prop := NoDup (map t_id (txs p)).
 Definition Reserved (p : pool) : Prop :=
   forall t k, In t (txs p) -> In k (in_keys t) -> In k (umap p).
 (* I2: every pooled transaction validates against the ledger *)
-Definition I2 (l : list N) (p : pool) : Prop :=
+Definition I2 (l : chain) (p : pool) : Prop :=
   forall t, In t (txs p) -> valid_against l t = true.
 (* I3: every reservation belongs to a pooled transaction *)
 Definition I3 (p : pool) : Prop :=
@@ -219,6 +219,7 @@ Lemma add_if_valid_cases l p t p' :
 Proof.
   unfold add_transaction_if_validates.
   destruct (producer_only t); [intros H; inversion H; auto|].
+  destruct (foreign_stake t); [intros H; inversion H; auto|].
   destruct (tx_validate l t) eqn:V.
   - intros H. apply add_transaction_cases in H. tauto.
   - intros H. inversion H. auto.
@@ -493,7 +494,7 @@ Qed.
 
 Lemma InvB_step s o x : InvB (pl s) -> step s o = Ok x -> InvB (pl (fst x)).
 Proof.
-  intros HI HS. destruct o as [t|a b|ts bg env wn st ex|l b|h mine b]; simpl in HS.
+  intros HI HS. destruct o as [t|a b|ts bg env wn st ex|l n b|h mine b]; simpl in HS.
   - destruct (add_transaction_if_validates (ledger s) (pl s) t) eqn:A; simpl in HS; try discriminate.
     inversion HS. subst. simpl. eapply InvB_add_if_valid; eauto.
   - inversion HS. subst. simpl. unfold add_golden_ticket.
@@ -552,7 +553,7 @@ Qed.
 
 Lemma I3_step s o x : I3 (pl s) -> step s o = Ok x -> I3 (pl (fst x)).
 Proof.
-  intros HI HS. destruct o as [t|a b|ts bg env wn st ex|l b|h mine b]; simpl in HS.
+  intros HI HS. destruct o as [t|a b|ts bg env wn st ex|l n b|h mine b]; simpl in HS.
   - destruct (add_transaction_if_validates (ledger s) (pl s) t) eqn:A; simpl in HS; try discriminate.
     inversion HS. subst. simpl. eapply I3_add_if_valid; eauto.
   - inversion HS. subst. simpl. unfold add_golden_ticket.
@@ -580,28 +581,29 @@ Proof.
 Qed.
 
 (* whatever happened before, a block addition re-establishes I3 (rebuild_utxo_map) *)
-Theorem no_stale_reservation_after_block : forall s l b x,
-  step s (OBlockAdded l b) = Ok x -> I3 (pl (fst x)).
-Proof. intros s l b x H. simpl in H. inversion H. subst. simpl. apply I3_remove. Qed.
+Theorem no_stale_reservation_after_block : forall s l n b x,
+  step s (OBlockAdded l n b) = Ok x -> I3 (pl (fst x)).
+Proof. intros s l n b x H. simpl in H. inversion H. subst. simpl. apply I3_remove. Qed.
 
 (* ------------------------------------------------------------------ *)
 (* I2: after remove_block_transactions every pooled transaction validates *)
 
-Theorem pooled_valid_after_block : forall s l b x,
-  step s (OBlockAdded l b) = Ok x -> ledger (fst x) = l /\ I2 l (pl (fst x)).
+Theorem pooled_valid_after_block : forall s l n b x,
+  step s (OBlockAdded l n b) = Ok x ->
+  ledger (fst x) = mkC l n (c_gp (ledger s)) /\ I2 (ledger (fst x)) (pl (fst x)).
 Proof.
-  intros s l b x H. simpl in H. inversion H. subst. simpl. split; [reflexivity|].
-  intros t Ht. destruct (remove_block_fields l (pl s) b) as [E _]. rewrite E in Ht.
+  intros s l n b x H. simpl in H. inversion H. subst. simpl. split; [reflexivity|].
+  intros t Ht. destruct (remove_block_fields (mkC l n (c_gp (ledger s))) (pl s) b) as [E _].
+  rewrite E in Ht.
   apply filter_In in Ht. destruct Ht as [_ Ht]. apply andb_true_iff in Ht. tauto.
 Qed.
 
-
 (* ... and stays valid until the ledger changes again, as long as what arrives is of a
-   type whose validate() consults the utxoset (Fee / SPV / BlockStake carry no value inputs
-   in the node's own traffic: the staking transaction of bundle_block) *)
+   type whose validate() consults the utxoset (Fee / SPV transactions are refused at intake
+   anyway) *)
 Definition consults_ledger (t : tx) : Prop :=
   match t_type t with
-  | TFee | TSPV | TBlockStake => vkeys t = []
+  | TFee | TSPV => vkeys t = []
   | _ => True
   end.
 
@@ -618,7 +620,8 @@ Lemma tx_validate_valid l t :
   consults_ledger t -> tx_validate l t = true -> valid_against l t = true.
 Proof.
   unfold consults_ledger, tx_validate. intros C H. apply andb_true_iff in H. destruct H as [_ H].
-  destruct (t_type t) eqn:T; auto; apply valid_no_vkeys; exact C.
+  destruct (t_type t) eqn:T; auto;
+    try (apply andb_true_iff in H; tauto); apply valid_no_vkeys; exact C.
 Qed.
 
 Definition op_consults (o : op) : Prop :=
@@ -657,7 +660,7 @@ Qed.
 Lemma I2_step s o x :
   op_consults o -> I2 (ledger s) (pl s) -> step s o = Ok x -> I2 (ledger (fst x)) (pl (fst x)).
 Proof.
-  intros HC HI HS. destruct o as [t|a b|ts bg env wn st ex|l b|h mine b].
+  intros HC HI HS. destruct o as [t|a b|ts bg env wn st ex|l n b|h mine b].
   - simpl in HS.
     destruct (add_transaction_if_validates (ledger s) (pl s) t) eqn:A; simpl in HS; try discriminate.
     inversion HS. subst. simpl. apply add_if_valid_cases in A.
@@ -672,7 +675,7 @@ Proof.
     eapply I2_core; [|exact B|].
     + intros s0 E. subst. exact HC.
     + unfold I2. destruct (drop_bad_gt_fields (pl s) bg) as [E _]. rewrite E. exact HI.
-  - apply pooled_valid_after_block in HS. destruct HS as [E H]. rewrite E. exact H.
+  - apply pooled_valid_after_block in HS. tauto.
   - simpl in HS.
     destruct (add_block_failure (ledger s) (pl s) h mine b) as [p'| |] eqn:F; simpl in HS; try discriminate.
     inversion HS. subst. simpl. intros t Ht.
@@ -705,12 +708,13 @@ Qed.
 Theorem fresh_spend_pooled : forall l p t,
   I3 p ->
   tx_validate l t = true -> t_type t <> TGoldenTicket -> producer_only t = false ->
+  foreign_stake t = false ->
   has_tx (t_id t) (txs p) = false ->
   (forall k u, In k (vkeys t) -> In u (txs p) -> ~ In k (in_keys u)) ->
   exists p', add_transaction_if_validates l p t = Ok p' /\ In t (txs p').
 Proof.
-  intros l p t H3 V T PO Hn Hfree.
-  unfold add_transaction_if_validates. rewrite PO, V. unfold add_transaction.
+  intros l p t H3 V T PO FS Hn Hfree.
+  unfold add_transaction_if_validates. rewrite PO, FS, V. unfold add_transaction.
   assert (conflicts p t = false) as C.
   { unfold conflicts. apply existsb_false. intros k Hk. apply mem_false. intros Hin.
     destruct (H3 k Hin) as [u [Hu Hku]]. eapply Hfree; eauto. }
@@ -723,6 +727,7 @@ Qed.
 Theorem unspent_always_spendable : forall g ops s t,
   run (init g) ops = Ok s ->
   tx_validate (ledger s) t = true -> t_type t <> TGoldenTicket -> producer_only t = false ->
+  foreign_stake t = false ->
   has_tx (t_id t) (txs (pl s)) = false ->
   (forall k u, In k (vkeys t) -> In u (txs (pl s)) -> ~ In k (in_keys u)) ->
   exists p', add_transaction_if_validates (ledger s) (pl s) t = Ok p' /\ In t (txs p').
@@ -731,11 +736,11 @@ Proof.
 Qed.
 
 (* the recomputation in delete_transactions makes the cache exact, whatever it was *)
-Theorem routing_work_exact_after_block : forall s l b x,
-  step s (OBlockAdded l b) = Ok x -> I5 (pl (fst x)).
+Theorem routing_work_exact_after_block : forall s l n b x,
+  step s (OBlockAdded l n b) = Ok x -> I5 (pl (fst x)).
 Proof.
-  intros s l b x H. simpl in H. inversion H. subst. simpl. unfold I5.
-  destruct (remove_block_fields l (pl s) b) as [_ [_ E3]]. rewrite E3. apply sum_work_spec.
+  intros s l n b x H. simpl in H. inversion H. subst. simpl. unfold I5.
+  destruct (remove_block_fields (mkC l n (c_gp (ledger s))) (pl s) b) as [_ [_ E3]]. rewrite E3. apply sum_work_spec.
 Qed.
 
 (* ------------------------------------------------------------------ *)
@@ -781,7 +786,7 @@ Qed.
    which the block's rebroadcast inputs are gone *)
 Theorem left_out_is_doomed : forall rk t ledger',
   left_out rk t = true -> t_type t <> TFee ->
-  (forall k, In k rk -> ~ In k ledger') -> valid_against ledger' t = false.
+  (forall k, In k rk -> ~ In k (c_keys ledger')) -> valid_against ledger' t = false.
 Proof.
   intros rk t l' L T Hgone. unfold left_out in L.
   assert (exists k, In k (vkeys t) /\ In k rk) as [k [Hk Hr]].
@@ -910,6 +915,7 @@ Lemma add_if_valid_total l p t :
 Proof.
   intros T. unfold add_transaction_if_validates, add_transaction.
   destruct (producer_only t); [eauto|].
+  destruct (foreign_stake t); [eauto|].
   destruct (tx_validate l t); [|eauto].
   destruct (conflicts p t); [eauto|]. destruct (has_tx (t_id t) (txs p)); [eauto|].
   destruct (t_type t); try congruence; eauto.
@@ -929,7 +935,7 @@ Qed.
 
 Lemma step_total s o : op_no_gt o -> exists x, step s o = Ok x.
 Proof.
-  intros H. destruct o as [t|a b|ts bg env wn st ex|l b|h mine b]; simpl in *; eauto.
+  intros H. destruct o as [t|a b|ts bg env wn st ex|l n b|h mine b]; simpl in *; eauto.
   - destruct (add_if_valid_total (ledger s) (pl s) t H) as [p' ->]. simpl. eauto.
   - unfold bundle_block, bundle_core. destruct ts; simpl; [|eauto].
     destruct (negb (can_bundle_block (drop_bad_gt (pl s) bg) env wn)); simpl; [eauto|].
@@ -956,6 +962,7 @@ Theorem panic_only_gt : forall l p t site,
 Proof.
   intros l p t site. unfold add_transaction_if_validates, add_transaction.
   destruct (producer_only t); [discriminate|].
+  destruct (foreign_stake t); [discriminate|].
   destruct (tx_validate l t); [|discriminate].
   destruct (conflicts p t); [discriminate|]. destruct (has_tx (t_id t) (txs p)); [discriminate|].
   destruct (t_type t); try discriminate. intros H. inversion H. auto.
@@ -963,20 +970,171 @@ Qed.
 
 
 (* ------------------------------------------------------------------ *)
+(* the age rule of bb88717                                             *)
+
+(* the types whose validate() reaches the age rule *)
+Definition age_ruled (t : tx) : bool :=
+  match t_type t with TNormal | TGoldenTicket | TBlockStake | TOther => true | _ => false end.
+
+Definition AgeInv (s : state) : Prop :=
+  forall t, In t (txs (pl s)) -> age_ruled t = true -> age_ok (ledger s) t = true.
+
+Lemma tx_validate_age c t : tx_validate c t = true -> age_ruled t = true -> age_ok c t = true.
+Proof.
+  unfold tx_validate, age_ruled. intros H R. apply andb_true_iff in H. destruct H as [_ H].
+  destruct (t_type t); try discriminate; apply andb_true_iff in H; tauto.
+Qed.
+
+Lemma add_if_valid_In c p t p' u :
+  add_transaction_if_validates c p t = Ok p' -> In u (txs p') ->
+  In u (txs p) \/ (u = t /\ tx_validate c t = true).
+Proof.
+  intros H Hu. apply add_if_valid_cases in H. destruct H as [->|[V [_ [_ ->]]]]; [auto|].
+  simpl in Hu. destruct Hu as [<-|Hu]; auto.
+Qed.
+
+(* a block addition after which a pooled transaction that stays pooled is older than the
+   rule allows: the retain of remove_block_transactions looks at the utxoset only *)
+Definition ev_aged (s : state) (o : op) : bool :=
+  match o with
+  | OBlockAdded k n b =>
+      let c := mkC k n (c_gp (ledger s)) in
+      existsb (fun t => age_ruled t && negb (age_ok c t)) (txs (remove_block_transactions c (pl s) b))
+  | _ => false
+  end.
+
+Lemma AgeInv_core c p env wn st ex p' r :
+  bundle_core c p env wn st ex = Ok (p', r) ->
+  (forall t, In t (txs p) -> age_ruled t = true -> age_ok c t = true) ->
+  (forall t, In t (txs p') -> age_ruled t = true -> age_ok c t = true).
+Proof.
+  intros B HI. apply core_cases in B.
+  destruct B as [[-> _]|[s0 [p1 [_ [_ [A [[_ [_ [-> _]]]|[_ [_ [-> _]]]]]]]]]].
+  - exact HI.
+  - intros t Ht R. unfold restored_pool, rebuild_utxo_map in Ht. simpl in Ht. apply kept_In in Ht.
+    destruct (add_if_valid_In _ _ _ _ _ A Ht) as [H|[-> V]]; [auto | apply tx_validate_age; auto].
+  - intros t Ht. simpl in Ht. contradiction.
+Qed.
+
+Lemma AgeInv_step s o x :
+  AgeInv s -> ev_aged s o = false -> step s o = Ok x -> AgeInv (fst x).
+Proof.
+  unfold AgeInv. intros HI HK HS. destruct o as [t|a b|ts bg env wn st ex|l n b|h mine b]; simpl in HS.
+  - destruct (add_transaction_if_validates (ledger s) (pl s) t) eqn:A; simpl in HS; try discriminate.
+    inversion HS. subst. simpl. intros u Hu R.
+    destruct (add_if_valid_In _ _ _ _ _ A Hu) as [H|[-> V]]; [auto | apply tx_validate_age; auto].
+  - inversion HS. subst. simpl. destruct (add_gt_fields (pl s) a b) as [E _]. rewrite E. exact HI.
+  - destruct (bundle_block (ledger s) (pl s) ts bg env wn st ex) as [[p' r]| |] eqn:B; simpl in HS; try discriminate.
+    inversion HS. subst. simpl. unfold bundle_block in B.
+    destruct ts; simpl in B; [|inversion B; subst; exact HI].
+    eapply AgeInv_core; [exact B|]. destruct (drop_bad_gt_fields (pl s) bg) as [E _]. rewrite E. exact HI.
+  - inversion HS. subst. simpl. simpl in HK. rewrite existsb_false in HK.
+    intros t Ht R. specialize (HK t Ht). rewrite R in HK. simpl in HK. apply negb_false_iff in HK. exact HK.
+  - destruct (add_block_failure (ledger s) (pl s) h mine b) as [p'| |] eqn:F; simpl in HS; try discriminate.
+    inversion HS. subst. simpl. intros t Ht R.
+    unfold add_block_failure, add_block_transactions_back in F. destruct mine.
+    + destruct (add_all (delete_block (pl s) h) (back_txs (ledger s) b)) as [p1| |] eqn:A; simpl in F; try discriminate.
+      inversion F. subst. simpl in Ht.
+      destruct (add_all_In _ _ _ t A Ht) as [H1|H1]; [apply HI; assumption|].
+      unfold back_txs in H1. apply filter_In in H1. destruct H1 as [_ H1].
+      apply andb_true_iff in H1. destruct H1 as [_ Hv]. apply tx_validate_age; assumption.
+    + inversion F. subst. apply HI; assumption.
+Qed.
+
+Lemma run_invariant_K (K : state -> op -> bool) (Inv : state -> Prop) :
+  (forall s o x, Inv s -> K s o = false -> step s o = Ok x -> Inv (fst x)) ->
+  forall ops s s', Inv s -> known_in K s ops = false -> run s ops = Ok s' -> Inv s'.
+Proof.
+  intros Hstep. induction ops as [|o r IH]; intros s s' HI HK HR.
+  - simpl in HR. inversion HR. subst. exact HI.
+  - apply run_cons in HR. destruct HR as [x [Hs Hr]].
+    simpl in HK. apply orb_false_iff in HK. destruct HK as [HK1 HK2].
+    rewrite Hs in HK2. eapply IH; [eapply Hstep; eauto | exact HK2 | exact Hr].
+Qed.
+
+Theorem pool_age_invariant : forall g ops s,
+  known_in ev_aged (init g) ops = false -> run (init g) ops = Ok s -> AgeInv s.
+Proof.
+  intros g ops s HK HR.
+  eapply (run_invariant_K ev_aged AgeInv); eauto using AgeInv_step.
+  intros t [].
+Qed.
+
+(* at intake the rule is applied *)
+Theorem age_checked_at_intake : forall c p t p',
+  add_transaction_if_validates c p t = Ok p' -> In t (txs p') -> ~ In t (txs p) ->
+  age_ruled t = true -> age_ok c t = true.
+Proof.
+  intros c p t p' A Ht Hn R. destruct (add_if_valid_In _ _ _ _ _ A Ht) as [H|[_ V]]; [contradiction|].
+  apply tx_validate_age; assumption.
+Qed.
+
+(* Consequence for Block::create's leaving-out.  [born k] = id of the block that created
+   output k.  The block after [latest] rebroadcasts outputs of block latest - gp only; a
+   pooled transaction whose value inputs all satisfy the age rule spends none of them, so
+   nothing is left out. *)
+Theorem no_leave_out_when_young : forall (born : N -> N) c ex l,
+  (forall k, In k (rebroadcast_keys ex) -> born k + c_gp c < c_latest c + 1) ->
+  (forall t, In t l -> t_type t <> TGoldenTicket ->
+     forall k, In k (vkeys t) -> exists e, t_oldest t = Some e /\ e <= born k) ->
+  (forall t, In t l -> t_type t <> TGoldenTicket -> age_ok c t = true) ->
+  kept ex l = l.
+Proof.
+  intros born c ex l Hrk Hold Hage. unfold kept. apply filter_all. intros t Ht.
+  apply negb_true_iff. unfold left_out.
+  destruct (t_type t) eqn:T; try reflexivity;
+    (apply existsb_false; intros k Hk; apply mem_false; intros Hr;
+     assert (Tn : t_type t <> TGoldenTicket) by (rewrite T; discriminate);
+     destruct (Hold t Ht Tn k Hk) as [e [Eo Hle]];
+     specialize (Hage t Ht Tn); unfold age_ok in Hage; rewrite Eo in Hage;
+     specialize (Hrk k Hr); lia).
+Qed.
+
+(* ------------------------------------------------------------------ *)
 (* witnesses                                                           *)
 
-Definition wA  : tx := mkTx 10 [(1, 100)] 50 TNormal true 0.
-Definition wA2 : tx := mkTx 10 [(1, 100); (2, 100)] 50 TNormal true 0.
-Definition wB  : tx := mkTx 11 [(1, 100)] 30 TNormal true 0.      (* spends what wA spends *)
-Definition wC  : tx := mkTx 13 [(2, 100)] 20 TNormal true 0.
-Definition wE  : tx := mkTx 15 [(3, 100)] 40 TNormal true 0.
-Definition wS  : tx := mkTx 90 [] 0 TBlockStake true 0.           (* staking transaction, stake 0 *)
-Definition wR  : tx := mkTx 30 [(1, 100)] 0 TATR true 0.          (* rebroadcast of output 1 *)
-Definition wG  : list N := [1; 2; 3].
+Definition wA  : tx := mkTx 10 [(1, 100)] 50 TNormal true 0 (Some 1) true.
+Definition wA2 : tx := mkTx 10 [(1, 100); (2, 100)] 50 TNormal true 0 (Some 1) true.
+Definition wB  : tx := mkTx 11 [(1, 100)] 30 TNormal true 0 (Some 1) true.   (* spends what wA spends *)
+Definition wC  : tx := mkTx 13 [(2, 100)] 20 TNormal true 0 (Some 1) true.
+Definition wE  : tx := mkTx 15 [(3, 100)] 40 TNormal true 0 (Some 1) true.
+Definition wS  : tx := mkTx 90 [] 0 TBlockStake true 0 None true.            (* staking transaction, stake 0 *)
+Definition wR  : tx := mkTx 30 [(1, 100)] 0 TATR true 0 (Some 1) true.       (* rebroadcast of output 1 *)
+Definition wT  : tx := mkTx 21 [(0, 0)] 0 TGoldenTicket true 7 None true.
+(* genesis: outputs 1..3 of block 1, long window *)
+Definition wG  : chain := mkC [1; 2; 3] 1 100.
+(* window of 5 blocks, tip 5: outputs of block 1 can be spent in block 6, not later *)
+Definition wG5 : chain := mkC [1; 2; 3] 5 5.
 
-(* window edge: wA2 spends output 1, which the block rebroadcasts, and output 2; wE is
-   unrelated.  The block holds wE (and the additions), the pool is empty, wA2 is in neither,
-   and (since ffb4da9) no reservation is left: output 2 can be spent again *)
+(* the age rule is applied at intake only.  wA2 (inputs 1 and 2 of block 1) and wE are pooled
+   at tip 5; a peer block makes the tip 6 without touching their inputs: both stay pooled
+   although validate() now refuses them; a new arrival spending output 2 is refused *)
+Definition ops_aged : list op := [OAddTx wA2; OAddTx wE; OBlockAdded [1; 2; 3; 9] 6 []].
+
+Lemma pool_age_invariant_refuted :
+  exists g ops s t,
+    run (init g) ops = Ok s /\ known_in ev_aged (init g) ops = true /\
+    In t (txs (pl s)) /\ t_ok t = true /\ valid_against (ledger s) t = true /\
+    tx_validate (ledger s) t = false /\
+    add_transaction_if_validates (ledger s) (set_txs (pl s) []) t = Ok (set_txs (pl s) []).
+Proof.
+  exists wG5, ops_aged. eexists. exists wE.
+  split; [vm_compute; reflexivity|]. split; [vm_compute; reflexivity|].
+  split; [simpl; auto|]. repeat split; vm_compute; reflexivity.
+Qed.
+
+(* ... and Block::create's leaving-out stays reachable from the pool: the next bundle (block 7
+   rebroadcasts the outputs of block 1) drops both transactions and bundles nothing of the pool *)
+Lemma leave_out_still_reachable :
+  exists s p' b, run (init wG5) ops_aged = Ok s /\
+    bundle_block (ledger s) (pl s) true None true 0 (Some wS)
+                 [wR; mkTx 31 [(3, 100)] 0 TATR true 0 (Some 1) true] = Ok (p', Some b) /\
+    map t_id b = [90; 30; 31] /\ txs p' = [] /\ umap p' = [].
+Proof. eexists. eexists. eexists. split; [vm_compute; reflexivity|]. repeat split; vm_compute; reflexivity. Qed.
+
+(* window edge, both transactions pooled in time: wA2 spends output 1, which the block
+   rebroadcasts, and output 2; wE is unrelated.  The block holds wE (and the additions), the
+   pool is empty, wA2 is in neither, and (since ffb4da9) no reservation is left *)
 Lemma left_out_example :
   exists s p' b, run (init wG) [OAddTx wA2; OAddTx wE] = Ok s /\
     bundle_block (ledger s) (pl s) true None true 0 (Some wS) [wR] = Ok (p', Some b) /\
@@ -993,7 +1151,7 @@ Lemma failed_create_witness :
     map t_id (txs p') = [90; 15; 10] /\ p' <> pl s.
 Proof.
   exists wG, [OAddTx wA; OAddTx wE]. eexists.
-  exists [mkTx 31 [(7, 5)] 0 TATR true 0; mkTx 32 [(7, 5)] 0 TATR true 0]. eexists.
+  exists [mkTx 31 [(7, 5)] 0 TATR true 0 (Some 1) true; mkTx 32 [(7, 5)] 0 TATR true 0 (Some 1) true]. eexists.
   split; [vm_compute; reflexivity|]. repeat split; try (vm_compute; reflexivity).
   intros H. inversion H.
 Qed.
@@ -1001,7 +1159,7 @@ Qed.
 (* a GoldenTicket-typed transaction handed to add_transaction_if_validates panics *)
 Lemma panic_reachable :
   exists g t, step (init g) (OAddTx t) = Panic SITE_GT_IN_TXPOOL.
-Proof. exists wG, (mkTx 20 [(0, 0)] 0 TGoldenTicket true 5). reflexivity. Qed.
+Proof. exists wG, (mkTx 20 [(0, 0)] 0 TGoldenTicket true 5 None true). reflexivity. Qed.
 
 (* the histories that broke the pool before the fixes 2cf0b5a / cafb4ab / ff837ac / 1214e31:
    (a) own bundled block fails, its transaction comes back, a conflicting one arrives;
@@ -1013,9 +1171,9 @@ Proof. exists wG, (mkTx 20 [(0, 0)] 0 TGoldenTicket true 5). reflexivity. Qed.
 Definition ops_readd : list op :=
   [OAddTx wA; OBundle true None true 0 (Some wS) []; OBlockFailed 77 true [wA; wS]; OAddTx wB].
 Definition ops_invalidated : list op :=
-  [OAddTx wA2; OBlockAdded [2; 3; 4] [mkTx 12 [(1, 100)] 0 TNormal true 0]; OAddTx wC].
+  [OAddTx wA2; OBlockAdded [2; 3; 4] 2 [mkTx 12 [(1, 100)] 0 TNormal true 0 (Some 1) true]; OAddTx wC].
 Definition ops_confirmed_offchain : list op :=
-  [OAddTx wA; OBlockAdded [1; 2; 3] [wA]; OAddTx wB].
+  [OAddTx wA; OBlockAdded [1; 2; 3] 1 [wA]; OAddTx wB].
 
 Lemma regression_examples :
   (exists s, run (init wG) ops_readd = Ok s /\
@@ -1035,19 +1193,20 @@ Qed.
    solve the tip (dropped by the bundle), a bundle declined for its timestamp, a successful
    bundle, the bundled block added, a new arrival, a peer block that invalidates nothing,
    a failed peer block, a failed own block that returns a transaction *)
-Definition wF : tx := mkTx 18 [(4, 100)] 7 TNormal true 0.
+Definition wF : tx := mkTx 18 [(4, 100)] 7 TNormal true 0 (Some 2) true.
 Definition ops_life : list op :=
   [OAddTx wA2; OAddTx wB; OAddTx wA2; OAddGT 7 21;
    OBundle false None true 0 (Some wS) [];
    OBundle true (Some 7) true 0 (Some wS) [];
-   OBlockAdded [3; 4; 5] [wA2; wS];
+   OBlockAdded [3; 4; 5] 2 [wA2; wS];
    OAddTx wE;
-   OBlockAdded [3; 4; 5; 6] [mkTx 16 [(9, 5)] 0 TNormal true 0];
+   OBlockAdded [3; 4; 5; 6] 3 [mkTx 16 [(9, 5)] 0 TNormal true 0 (Some 1) true];
    OBlockFailed 78 false [wE];
    OBlockFailed 79 true [wF; wE]].
 
 Lemma life_example :
-  exists s, run (init wG) ops_life = Ok s /\ known_in ev_failed_create (init wG) ops_life = false /\
+  exists s, run (init wG) ops_life = Ok s /\
+            known_in (fun s o => ev_failed_create s o || ev_aged s o) (init wG) ops_life = false /\
             map t_id (txs (pl s)) = [18; 15] /\ umap (pl s) = [4; 3] /\ work (pl s) = 47 /\
             gts (pl s) = [].
 Proof. eexists. split; [vm_compute; reflexivity|]. repeat split; vm_compute; reflexivity. Qed.
@@ -1057,3 +1216,18 @@ Theorem no_double_spend_in_pool : forall g ops s, run (init g) ops = Ok s -> I1 
 Proof. intros g ops s H. apply (base_invariants g ops s H). Qed.
 Theorem routing_work_cache : forall g ops s, run (init g) ops = Ok s -> I5 (pl s).
 Proof. intros g ops s H. apply (base_invariants g ops s H). Qed.
+
+(* 9879695: a staking transaction with an input of another key is never pooled *)
+Theorem foreign_stake_refused : forall c p t,
+  t_type t = TBlockStake -> t_own t = false -> add_transaction_if_validates c p t = Ok p.
+Proof.
+  intros c p t T O. unfold add_transaction_if_validates, producer_only, foreign_stake.
+  rewrite T, O. reflexivity.
+Qed.
+
+Lemma own_stake_example :
+  let own := mkTx 40 [(2, 100)] 0 TBlockStake true 0 (Some 1) true in
+  let foreign := mkTx 41 [(3, 100)] 0 TBlockStake true 0 (Some 1) false in
+  exists s, run (init wG) [OAddTx foreign; OAddTx own] = Ok s /\
+            map t_id (txs (pl s)) = [40] /\ umap (pl s) = [2].
+Proof. eexists. split; vm_compute; auto. Qed.
